@@ -890,32 +890,35 @@ pub fn c08_case(ctx: &mut Ctx, rng: &mut Rng) {
     let pl: Vec<usize> = pl1.iter().map(|&x| pl2[x]).collect();
     let pr: Vec<usize> = pr1.iter().map(|&x| pr2[x]).collect();
     let sentences: Vec<String> = (0..14).map(|_| { let pick = rng.chance(0.5); gen_sentence(rng, &spec, Some(if pick { &u1 } else { &u2 })) }).collect();
-    let mk = |ctx: &mut Ctx| -> Option<Dictionary> {
-        let d = match build_spec(&spec) {
+    let nmaps = if twice { 2 } else if mapped { 1 } else { 0 };
+    // how many of the mappings are applied AFTER the load/replace/clear history (on a dictionary that carries a
+    // user lexicon) instead of before it: the result must be the same
+    let late = if nmaps > 0 && rng.chance(0.4) { 1 + rng.below(nmaps) } else { 0 };
+    let map_k = |d: Dictionary, k: usize| -> Option<Dictionary> {
+        let (li, ri) = if k == 0 { (perm_to_iter(&pl1), perm_to_iter(&pr1)) } else { (perm_to_iter(&pl2), perm_to_iter(&pr2)) };
+        guarded(move || d.map_connection_ids_from_iter(li, ri).ok()).ok().flatten()
+    };
+    let mk_n = |ctx: &mut Ctx, n: usize| -> Option<Dictionary> {
+        let mut d = match build_spec(&spec) {
             BuildOutcome::Ok(d) => d,
             _ => {
                 ctx.bucket("dict_rejected");
                 return None;
             }
         };
-        if mapped {
-            let (li, ri) = (perm_to_iter(&pl1), perm_to_iter(&pr1));
-            let d = guarded(move || d.map_connection_ids_from_iter(li, ri).ok()).ok().flatten()?;
-            if twice {
-                let (li, ri) = (perm_to_iter(&pl2), perm_to_iter(&pr2));
-                guarded(move || d.map_connection_ids_from_iter(li, ri).ok()).ok().flatten()
-            } else {
-                Some(d)
-            }
-        } else {
-            Some(d)
+        for k in 0..n {
+            d = map_k(d, k)?;
         }
+        Some(d)
     };
+    let mk = |ctx: &mut Ctx| -> Option<Dictionary> { mk_n(ctx, nmaps) };
     if twice {
         ctx.bucket("dictionary_mapped_twice");
     }
     let files = |extra: serde_json::Value| json!({"lex.csv": spec.lex_csv(), "char.def": spec.char_def(), "unk.def": spec.unk_def(), "connector": format!("{:?}", conn_texts(&spec.conn)),
-        "mapped(lmap,rmap)": if mapped { Some((perm_to_iter(&pl), perm_to_iter(&pr))) } else { None }, "opts": opts, "detail": extra});
+        "mapped(lmap,rmap)": if mapped { Some((perm_to_iter(&pl), perm_to_iter(&pr))) } else { None },
+        "mappings": if twice { json!([(perm_to_iter(&pl1), perm_to_iter(&pr1)), (perm_to_iter(&pl2), perm_to_iter(&pr2))]) } else if mapped { json!([(perm_to_iter(&pl1), perm_to_iter(&pr1))]) } else { json!([]) },
+        "mappings_applied_after_the_user_lexicon_history": late, "opts": opts, "detail": extra});
     let spec_m = spec.mapped(&pl, &pr);
 
     // ---- invalid user lexicons are rejected with an error
@@ -961,7 +964,7 @@ pub fn c08_case(ctx: &mut Ctx, rng: &mut Rng) {
     if rng.chance(0.3) {
         hist.push(None);
     }
-    let mut d = match mk(ctx) {
+    let mut d = match mk_n(ctx, nmaps - late) {
         Some(d) => d,
         None => return,
     };
@@ -978,6 +981,18 @@ pub fn c08_case(ctx: &mut Ctx, rng: &mut Rng) {
                 return;
             }
         };
+    }
+    for k in nmaps - late..nmaps {
+        d = match map_k(d, k) {
+            Some(d) => d,
+            None => {
+                ctx.violation("mapping_failed_with_user_lexicon_loaded", "C08:mapping_failed_with_user_lexicon_loaded", format!("mapping {} of {nmaps} (a valid permutation) failed or panicked on the dictionary after the history", k + 1), files(json!({"history": format!("{hist:?}"), "u1": lex_csv(&u1), "u2": lex_csv(&u2)})));
+                return;
+            }
+        };
+    }
+    if late > 0 {
+        ctx.bucket(if late == 2 { "two_mappings_after_the_history" } else if nmaps == 2 { "second_mapping_after_the_history" } else { "mapping_after_the_history" });
     }
     let last = *hist.last().unwrap();
     let last_rows: Option<Vec<LexRow>> = last.map(|k| if k == 1 { u1.clone() } else { u2.clone() });
